@@ -38,7 +38,7 @@ time_t time(time_t *t) { if (t) *t = g_clock; return g_clock; }
 
 void MatrixAppendUICol(matrix *m, uivector *col);   /* public function, missing from matrix.h (MatrixAppendUIRow is declared twice there) */
 
-static long ncases(int tier) { if (getenv("VERIF_VALGRIND")) return 2000; return tier ? 200000 : 2500; }
+static long ncases(int tier) { if (getenv("VERIF_VALGRIND")) return 2000; return tier ? 200000 : 6000; }
 
 #define POOL 4
 #define MAXN 64
